@@ -256,6 +256,16 @@ const DECL_ORDERS: &[&[&str]] = &[
     &["types", "metadata"], &["labels", "processes", "slices"], &["buildpack", "dependencies", "platform"],
 ];
 
+/// valid, not in RFC 3986 normal form, and delivered verbatim by the unchanged code (upper-case host / unregistered scheme,
+/// dot segments, percent-encoded unreserved characters in both hex cases, trailing dot in the host, userinfo, default port)
+const URI_NONNORMAL: &[&str] = &["docker://Docker.IO/heroku/example:1.2.3", "DOCKER://docker.io/x", "LIBCNB:foo/bar", "Libcnb:Foo", "https://h/releases/./x.cnb",
+    "file:///workspace/packaged/../buildpacks/meta", "https://h/%7Eteam/node%2ejs.cnb", "https://h/%7eteam", "https://Example.TLD./a", "https://EXAMPLE.tld:443/a/b/../../c",
+    "../a/./b/../c", "https://user:PW@Host/x", "http://h:80/", "x-custom+v1.2://Host/P", "https://h/a//b/", "https://h/%E2%9C%93?Q=%7e#Frag"];
+/// valid, re-printed by uriparse at parse time (registered scheme lower-cased, port as a number, '/' after an authority with empty path)
+const URI_RESPELLED: &[&str] = &["HTTPS://Example.TLD/a", "FILE:///x", "URN:cnb:registry:heroku/java", "https://h:0080/x", "https://h:/x", "https://u:p@h:007", "docker://docker.io",
+    "https://h?q", "https://h#f", "//host", "x://h:", "https://h.."];
+const URI_INVALID: &[&str] = &["a b", "https://h/%zz", "2:x", ":x", "https://h:65536/x", "https://h:8a/x", "https://h/\u{e9}", "https://h/a#b#c", "https://h/a?b[c", "https://h/{x}"];
+
 #[derive(Clone, Debug)]
 enum Seg { Key(String), Idx(usize) }
 type Path = Vec<Seg>;
@@ -319,6 +329,15 @@ fn mutations(ty: &str, doc: &Value) -> Vec<(String, Value)> {
                     let arr: Vec<Value> = o.iter().filter_map(|k| t.get(*k).cloned()).collect();
                     let mut longer = arr.clone(); longer.push(Value::Integer(1));
                     for a in [arr, longer] { let mut d = doc.clone(); *at(&mut d, p) = Value::Array(a); out.push((format!("table-as-array/{zone}"), d)); }
+                }
+            }
+            // 4c. URI references: valid but not in RFC 3986 normal form (kept verbatim by the code), spellings uriparse
+            //     re-prints at parse time, and invalid references
+            if let (Value::String(_), Some(Seg::Key(k))) = (node, p.last()) {
+                if k == "uri" {
+                    for (class, list) in [("uri-nonnormal", URI_NONNORMAL), ("uri-respelled", URI_RESPELLED), ("uri-invalid", URI_INVALID)] {
+                        for u in list { let mut d = doc.clone(); *at(&mut d, p) = Value::String(u.to_string()); out.push((class.to_string(), d)); }
+                    }
                 }
             }
             if let Value::String(sv) = node {
